@@ -56,6 +56,9 @@ class Model:
         self.events = {name: Ev("ev:" + name) for name in scenario.get("events", ())}
         for name in scenario.get("defusers", ()):
             self.events[name].defused = True      # one of its callbacks handles a failure
+        self.chains = {}
+        for head, tail in scenario.get("chains", ()):
+            self.chains.setdefault("ev:" + head, []).append(self.events[tail])
         self.procs = {}
         self.log = {}             # actor -> [(event, time, data...)]
         self.serial = 0
@@ -82,6 +85,9 @@ class Model:
                 self.failure = (self.now, value)
         for waiter in waiters:
             waiter(ev)
+        for tail in self.chains.get(ev.label, ()):
+            # `head.callbacks.append(tail.trigger)`: runs when the head is processed
+            self.at(self.now, lambda tail=tail: self.trigger(tail, ok, value))
         return True
 
     def subscribe(self, ev, func):
